@@ -9,6 +9,9 @@
  *              (B) every "skeleton" (any subset of the keywords in order, one alien inserted anywhere, one
  *              adjacent pair swapped) spelled with every combination of 8 forms per mnemonic (short, long,
  *              long-letter, short+"1", long+letter, short+letter, long+"012", long+"7") x colon x '?' x 3 cases.
+ *              (C) every numeric-suffix keyword of a correctly spelled header followed by each of 23 suffix texts (leading
+ *              zeros, digits 8/9, sign, blank, tab, letter, radix prefix, exponent);
+ *   a second vocabulary {SYNChronization, W3GPp, RX_Level, IEEE488, W, RX}: all singles and ordered pairs in 6 shapes.
  * Oracle = ref_pattern.h.  Compared: matchCommand (numbers array pre-filled with a sentinel), SCPI_Match,
  * and, for (B), the public path SCPI_Input -> handler -> SCPI_CommandNumbers / SCPI_IsCmd / -113.
  */
@@ -32,6 +35,8 @@ static int32_t h_nums[RP_MAXKW + 1];
 static scpi_bool_t h_iscmd, h_cn;
 static char h_hdr[128]; static size_t h_hdrlen;
 static const char * cur_pattern;
+static const rp_pattern_t * cur_rp;
+static int h_isbad, h_isgot; static char h_isprobe[160];
 static size_t if_write(scpi_t * c, const char * d, size_t n) { (void) c; (void) d; return n; }
 static int if_error(scpi_t * c, int_fast16_t e) { (void) c; if (nerrs < 8) errs[nerrs++] = (int) e; return 0; }
 static scpi_interface_t itf = { if_error, if_write, NULL, NULL, NULL };
@@ -43,6 +48,23 @@ static scpi_result_t handler(scpi_t * c) {
     h_hdrlen = c->param_list.cmd_raw.length < sizeof h_hdr ? c->param_list.cmd_raw.length : sizeof h_hdr - 1;
     memcpy(h_hdr, c->param_list.cmd_raw.data, h_hdrlen);
     h_iscmd = SCPI_CmdTag(c) == 4711;
+    {   /* SCPI_IsCmd: "would this header select the running entry?" for spellings other than the received one */
+        char pr[6][160];
+        int n[6], i2;
+        long tmp[RP_MAXKW];
+        n[0] = rp_probe(cur_rp, 0, pr[0]);
+        n[1] = rp_probe(cur_rp, 1, pr[1]);
+        n[2] = sprintf(pr[2], "%sX", pr[0]);
+        n[3] = sprintf(pr[3], ":%s", pr[0]);
+        n[4] = sprintf(pr[4], "ZZ");
+        n[5] = (int) h_hdrlen; memcpy(pr[5], h_hdr, h_hdrlen); pr[5][h_hdrlen] = 0;
+        h_isbad = -1;
+        for (i2 = 0; i2 < 6; i2++) {
+            int want = rp_match(cur_rp, pr[i2], n[i2], tmp, DEFV);
+            scpi_bool_t got = SCPI_IsCmd(c, pr[i2]);
+            if ((got ? 1 : 0) != want && h_isbad < 0) { h_isbad = i2; h_isgot = got ? 1 : 0; snprintf(h_isprobe, sizeof h_isprobe, "%s", pr[i2]); }
+        }
+    }
     return SCPI_RES_OK;
 }
 static scpi_command_t table[3];
@@ -101,7 +123,7 @@ static void check_header(const rp_pattern_t * rp, const char * pattern, const ch
         free(ibuf);
         ibuf = (char *) malloc(ml + 1);
         ctx.buffer.data = ibuf; ctx.buffer.length = ml + 1; ctx.buffer.position = 0;
-        nerrs = 0; handler_runs = 0; cur_pattern = pattern;
+        nerrs = 0; handler_runs = 0; cur_pattern = pattern; cur_rp = rp; h_isbad = -1;
         SCPI_Input(&ctx, msg, (int) ml);
         n_api++;
         free(msg);
@@ -111,6 +133,7 @@ static void check_header(const rp_pattern_t * rp, const char * pattern, const ch
             else if (nerrs) why = "api/error-for-valid-header";
             else if (!h_cn) why = "api/SCPI_CommandNumbers-false";
             else if (!h_iscmd) why = "api/wrong-entry";
+            else if (h_isbad >= 0) { why = "api/SCPI_IsCmd"; mc_viol("c03/api/SCPI_IsCmd", "pattern [%s] running for header [%s]: SCPI_IsCmd(\"%s\") = %d, reference %d", pattern, mc_e(h, (size_t) hl), h_isprobe, h_isgot, !h_isgot); why = NULL; }
             else {
                 for (i = 0; i < nnum; i++) if (h_nums[i] != (int32_t) rn[i]) { why = "api/suffix-value"; break; }
                 if (!why) for (i = nnum; i <= RP_MAXKW; i++) if (h_nums[i] != (int32_t) SENT) { why = "api/suffix-slot-beyond-keywords-written"; break; }
@@ -250,6 +273,39 @@ static void enum_skeleton(const rp_pattern_t * rp, const char * pattern, int nfo
     }
 }
 
+/* (C) suffix texts: the header spells every keyword of the pattern correctly (target keyword short and long, the others short),
+ * and the target numeric-suffix keyword is followed by each of these texts: digit strings with leading zeros and with the digits
+ * 8 and 9 (decimal, not octal), and texts that are not digit strings (sign, blank, tab, letter, radix prefix, exponent) */
+static const char * suffix_texts[] = {"0", "00", "08", "09", "010", "0019", "007", "0100", "10", "2147483647", "+5", "-5", " 5", "\t5", "5 ", "5+", "5a", "a5", "0x10", "1e2", "5.", "#5", "_5"};
+#define NSUFFIX ((int) (sizeof suffix_texts / sizeof suffix_texts[0]))
+static void enum_suffix(const rp_pattern_t * rp, const char * pattern, int api) {
+    int j, lf, si, flags, k;
+    for (j = 0; j < rp->nkw; j++) {
+        if (!rp->kw[j].numeric) continue;
+        for (lf = 0; lf < 2; lf++) for (si = 0; si < NSUFFIX; si++) for (flags = 0; flags < 12; flags++) {
+            char h[256];
+            int o = 0, digits_only = 1;
+            const char * t = suffix_texts[si];
+            if (!MC_CASE()) continue;
+            for (k = 0; t[k]; k++) if (!isdigit((unsigned char) t[k])) digits_only = 0;
+            if (flags & 1) h[o++] = ':';
+            for (k = 0; k < rp->nkw; k++) {
+                if (k) h[o++] = ':';
+                o += make_form(h + o, &rp->kw[k], (k == j && lf) ? 1 : 0);
+                if (k == j) { memcpy(h + o, t, strlen(t)); o += (int) strlen(t); }
+            }
+            apply_case(h, o, flags >> 2);
+            if (flags & 2) h[o++] = '?';
+            mc_case_tag = "suffix-text"; mc_case_s[0] = (const unsigned char *) pattern; mc_case_n[0] = strlen(pattern); mc_case_s[1] = (const unsigned char *) h; mc_case_n[1] = (size_t) o;
+            check_header(rp, pattern, h, o, api && digits_only);
+        }
+    }
+}
+
+/* second vocabulary: a keyword longer than 12 characters, short forms that hold a digit or an underscore, keywords without
+ * lower case part, keywords that are a prefix of another keyword */
+static const char * vocab2[6] = {"SYNChronization", "W3GPp", "RX_Level", "IEEE488", "W", "RX"};
+
 static const char * shipped[] = {
     "*CLS", "*ESE", "*ESE?", "*ESR?", "*IDN?", "*OPC", "*OPC?", "*RST", "*SRE", "*SRE?", "*STB?", "*TST?", "*WAI",
     "SYSTem:ERRor[:NEXT]?", "SYSTem:ERRor:COUNt?", "SYSTem:VERSion?",
@@ -287,6 +343,7 @@ static void run_pattern(const char * pattern, int maxm, int nforms, int api) {
     }
     enum_product(&rp, pattern, maxm, 0);
     enum_skeleton(&rp, pattern, nforms, mc_thorough ? 5 : 4, api);
+    enum_suffix(&rp, pattern, 1);
 }
 
 int main(int argc, char ** argv) {
@@ -317,6 +374,22 @@ int main(int argc, char ** argv) {
         }
     }
     for (i = 0; i < NSHIPPED; i++) { run_pattern(shipped[i], 3, nforms, 1); npat++; }
+    {   /* second vocabulary: every single keyword and every ordered pair, plain / numeric / optional, with and without '?' */
+        int a, b, shape;
+        for (a = 0; a < 6; a++) for (b = -1; b < 6; b++) for (shape = 0; shape < 6; shape++) for (q = 0; q < 2; q++) {
+            if (b == a) continue;
+            if (b < 0) { if (shape > 1) continue; sprintf(pattern, "%s%s%s", vocab2[a], shape ? "#" : "", q ? "?" : ""); }
+            else switch (shape) {
+                case 0: sprintf(pattern, "%s:%s%s", vocab2[a], vocab2[b], q ? "?" : ""); break;
+                case 1: sprintf(pattern, "%s#:%s%s", vocab2[a], vocab2[b], q ? "?" : ""); break;
+                case 2: sprintf(pattern, "%s:%s#%s", vocab2[a], vocab2[b], q ? "?" : ""); break;
+                case 3: sprintf(pattern, "%s#:%s#%s", vocab2[a], vocab2[b], q ? "?" : ""); break;
+                case 4: if (vocab2[a][0] == vocab2[b][0]) continue; sprintf(pattern, "[:%s]:%s%s", vocab2[a], vocab2[b], q ? "?" : ""); break;
+                default: if (vocab2[a][0] == vocab2[b][0]) continue; sprintf(pattern, "%s[:%s#]%s", vocab2[a], vocab2[b], q ? "?" : ""); break;
+            }
+            run_pattern(pattern, 3, nforms, 1); npat++;
+        }
+    }
     {   /* empty header: nothing to accept, and nothing to read */
         if (MC_CASE()) {
             char * e = (char *) calloc(1, 1);
